@@ -344,6 +344,7 @@ def process_extract(gen, sec, vu_path):
         return m.start(), m.end()
 
     external = 'external' in dnames
+    groups = {}
     for d in dirs:
         if d['name'] == 'contract-from':
             cp = os.path.join(VERIF, 'contracts', d['arg'].strip() + '.txt')
@@ -431,6 +432,7 @@ def process_extract(gen, sec, vu_path):
             count = 1
             rule = 'R5 idiom'
             optional = False
+            group = None
             for o in opts.split():
                 if o == 'count=*':
                     count = None
@@ -440,11 +442,19 @@ def process_extract(gen, sec, vu_path):
                     rule = o[5:]
                 elif o == 'optional':
                     optional = True
+                elif o.startswith('group='):
+                    # alternatives: each rule of a group is optional, but at least one of them must apply - otherwise the
+                    # statement the proof text was written for is gone and the item must not reach the verifier bare
+                    optional = True
+                    group = o[6:]
+                    groups.setdefault(group, [0, d['line'], rx])
             rep = '\n'.join(l for _, l in d['text'])
             ms = [m for m in re.finditer(rx, text, re.S)]
             ms = [m for m in ms if m.end() > m.start() and mask[m.start()] == text[m.start()]]   # not inside comments/strings
             if ((count is None and len(ms) == 0) or (count is not None and len(ms) != count)) and not (optional and len(ms) == 0):
                 raise UnitError('lost anchor: %s:%d: /%s/ matches %d times (expected %s) in %s' % (vu_path, d['line'], rx, len(ms), count, item_name))
+            if group is not None:
+                groups[group][0] += len(ms)
             for m in ms:
                 new = m.expand(rep)
                 edits.append((m.start(), m.end(), new, 'gen', rule))
@@ -467,6 +477,9 @@ def process_extract(gen, sec, vu_path):
         else:
             raise UnitError('%s:%d: unknown directive @%s' % (vu_path, d['line'], n))
 
+    for gname, (nmatch, gline, grx) in groups.items():
+        if nmatch == 0:
+            raise UnitError('lost anchor: %s:%d: none of the alternatives of group `%s` applies in %s' % (vu_path, gline, gname, item_name))
     # check overlap and build segments
     edits.sort(key=lambda t: (t[0], t[1]))
     segs = []
